@@ -8,7 +8,9 @@
     alarms   alarm { "|" alarm }    (empty field = no alarm)
     tag      last argument of every op: free text naming provider and build route (ignored; keeps the
              cases of different routes apart); `al_skip` answers `unmodelled` whatever its arguments
-    parent   dtstamp ";" lastack ";" snoozetime ";" othermoz(0|1)
+    parent   dtstamp ";" lastack ";" snoozetime ";" othermoz(0|1) [ ";" ackcall ";" snoozecall ]
+               ackcall / snoozecall: explicit acknowledge_until / snooze_until on the fresh Alarms:
+               "-" no call | "n" called with None | int
     localtz  "-" not set | "L" { "," wall ">" instant }   the provider's localize, tabulated by the harness
   Results:
     al_add       trig
@@ -75,16 +77,36 @@ def decAlarm (s : String) : Option VAlarm :=
     pure { trigger := t, related := r, rep := n, duration := d, acknowledged := k }
   | _ => none
 
+/-- `str.upper()` is modelled for ASCII only -/
+def asciiRelated (a : VAlarm) : Bool :=
+  match a.related with
+  | some r => r.all (fun c => c.toNat < 128)
+  | none => true
+
 def decAlarms (s : String) : Option (List VAlarm) :=
   if s.isEmpty then some [] else (s.splitOn "|").mapM decAlarm
 
-def decParent (s : String) : Option Parent :=
+/-- an explicit setter call after construction: "-" no call | "n" call with None | int -/
+def decCall (s : String) : Option (Option (Option Int)) :=
+  if s == "-" then some none
+  else if s == "n" then some (some none)
+  else s.toInt?.map (fun i => some (some i))
+
+/-- the parent and the explicit `acknowledge_until` / `snooze_until` calls made on the fresh `Alarms` -/
+def decParent (s : String) : Option (Parent × Option (Option Int) × Option (Option Int)) :=
   match s.splitOn ";" with
   | [a, b, c, m] => do
     let a ← decOptInt a
     let b ← decOptInt b
     let c ← decOptInt c
-    pure { dtstamp := a, lastack := b, snoozeTime := c, otherMoz := m == "1" }
+    pure ({ dtstamp := a, lastack := b, snoozeTime := c, otherMoz := m == "1" }, none, none)
+  | [a, b, c, m, k, z] => do
+    let a ← decOptInt a
+    let b ← decOptInt b
+    let c ← decOptInt c
+    let k ← decCall k
+    let z ← decCall z
+    pure ({ dtstamp := a, lastack := b, snoozeTime := c, otherMoz := m == "1" }, k, z)
   | _ => none
 
 def decPair (s : String) : Option (Int × Int) :=
@@ -131,7 +153,16 @@ def withState (args : List String)
   match args with
   | [p, st, en, as, ltz, _tag] =>
     match decParent p, decTrigO st, decTrigO en, decAlarms as, decLocal ltz with
-    | some p, some st, some en, some as, some ltz =>
+    | some (p, ackCall, snoozeCall), some st, some en, some as, some ltz =>
+      if !as.all asciiRelated then some "unmodelled" else
+      let componentState' := fun (p : Parent) (st en : Option Trig) (as : List VAlarm) (tz : Bool) =>
+        let s := setLocalTimezone (ofComponent p st en as) tz
+        let s := match ackCall with
+          | some v => acknowledgeUntil s v
+          | none => s
+        match snoozeCall with
+          | some v => snoozeUntil s v
+          | none => s
       match ltz with
       | none => some (k (fun w => w) (componentState' p st en as false) as)
       | some tab =>
@@ -145,9 +176,6 @@ def withState (args : List String)
         if covered then some (k (lookup tab) (componentState' p st en as true) as) else some "unmodelled"
     | _, _, _, _, _ => some "bad-args"
   | _ => some "bad-args"
-where
-  componentState' (p : Parent) (st en : Option Trig) (as : List VAlarm) (tz : Bool) : State :=
-    setLocalTimezone (ofComponent p st en as) tz
 
 end AlarmP
 open AlarmP
@@ -162,6 +190,7 @@ def handleAlarm (op : String) (args : List String) : Option String :=
   | "al_triggers", [a, _tag] =>
     match decAlarm a with
     | some a =>
+      if !asciiRelated a then some "unmodelled" else
       let tr := a.triggers
       some ("s:" ++ ",".intercalate (tr.start.map toString) ++ ";e:" ++ ",".intercalate (tr.end_.map toString) ++
         ";a:" ++ ",".intercalate (tr.absolute.map encTrig))
